@@ -7,6 +7,7 @@ import (
 	"errors"
 	"fmt"
 	"math/rand/v2"
+	"runtime"
 	"strings"
 	"sync"
 
@@ -121,6 +122,15 @@ func (f *gateFile) SyncData() error             { f.g.walOp(); return f.File.Syn
 func (f *gateFile) SyncTo(n int64) (bool, error) {
 	f.g.walOp()
 	return f.File.SyncTo(n)
+}
+
+// dropPools empties every sync.Pool (two GC cycles: primary -> victim -> gone).
+// Pebble pools objects that own channels (sstable write tasks); a channel made
+// inside one synctest bubble must never be used from the next run's bubble
+// ("send on synctest channel from outside bubble" is fatal).
+func dropPools() {
+	runtime.GC()
+	runtime.GC()
 }
 
 // hookFS / hookMem are read by the Pebble hook at Open time. Runs are
@@ -527,6 +537,18 @@ func (n *node) semanticDump(hs uint16) string {
 			fmt.Fprintf(&b, "latest%+v;", l)
 		} else {
 			note("latest "+id, err)
+		}
+	}
+	for _, id := range simPersonChannels() {
+		if c, err := s.GetChannel(ctx, id, 1); err == nil {
+			fmt.Fprintf(&b, "chan%+v;", c)
+		} else {
+			note("channel "+id, err)
+		}
+		if t, ok, err := s.GetPersonDirectoryTask(ctx, id, 1); err == nil && ok {
+			fmt.Fprintf(&b, "dirtask%+v;", t)
+		} else {
+			note("dirtask "+id, err)
 		}
 	}
 	if metas, _, _, err := s.ListChannelRuntimeMetaPage(ctx, metadb.ChannelRuntimeMetaCursor{}, 100); err == nil {
